@@ -246,6 +246,7 @@ pub fn run_in_child(desc: &RunDesc) -> ! {
     match desc.family.as_str() {
         "queue" => crate::fam_queue::run(desc),
         "list" => crate::fam_list::run(desc),
+        "ebr-private" => crate::fam_ebr::run_private(desc),
         "chain" | "chain-stack" | "chain-weak" => crate::fam_chain::run(desc),
         _ => {
             if desc.cfg.align == 32 {
